@@ -28,6 +28,11 @@ branching variant that the polynomial argument does not cover), and part
 every way of writing the zero vector (the boundary where v / |v| has no value
 and each operation depends on a guard).
 
+Part ``swizzle_history`` decides process-wide state behind the swizzle
+look-up (caches keyed by the attribute name, remembered failures): every case
+is an ordered history of look-ups executed in its own freshly forked process,
+so the verdict does not depend on how the kernel spreads cases over workers.
+
 A case is a small JSON-able tuple; ``replay`` re-runs exactly one of them.
 """
 import itertools
@@ -132,6 +137,19 @@ RULE = (
     'point p) x normalize, abs (Vec2/3/4), from_magnitude x 6 '
     'magnitudes (0, 1, 5/2, 0.5, 4.0, 1000.0), limit x 4 maxima '
     '(Vec2/3), from_heading and rotate x the 18 angles (Vec2).  '
+    'Part swizzle_history (one freshly forked process per case, forked '
+    'from a process that never looked up a vector attribute): every '
+    'ordered pair (first look-up, second look-up) on the same name: 340 '
+    'names (all strings of length 1-4 over xyzw) x first class x second '
+    'class in Vec2/3/4 = 3060 pairs with a plain first look-up, again '
+    'with hasattr and with getattr(v, name, default) as the first '
+    'look-up (quick: the 1590 pairs whose first look-up must fail; '
+    'thorough: all 3060); the second look-up is observed by v.name, '
+    'hasattr and getattr-with-default in this order.  Sweeps: no first '
+    'look-up / each of the 1020 (class, name) first look-ups, followed '
+    'by all 1020 look-ups class by class (one case for the order Vec2, '
+    'Vec3, Vec4, one for Vec4, Vec3, Vec2).  Thorough adds every exact '
+    'ordered pair on two different names of length 1-2 (3420 pairs).  '
     'A case is distinct by its input tuple; non-trivial = it exercised a '
     'named shortcut (singular matrix, truncating limit, repeated swizzle '
     'letter, clamping below/above, basis pair, alpha beyond an end '
@@ -248,6 +266,28 @@ ASSUMPTIONS = [
     'seen.  Vectors that are non-zero but whose squared length '
     'underflows to 0.0 are outside the family ("floats of moderate '
     'magnitude").',
+    'swizzle_history: "for every swizzle string over the component '
+    'letters" is a statement about each look-up, so its outcome must be '
+    'the textbook one (the listed components as a scalar / Vec2/3/4 for '
+    'a name over the own letters, AttributeError - hasattr False, the '
+    'default handed back - for a letter beyond the dimension) whatever '
+    'was looked up before in the process.  Each case is executed in a '
+    'child forked for it alone (os.fork in the runner, JSON result '
+    'through a pipe, os._exit), so the state it starts from is "desper '
+    'imported, no vector attribute ever looked up" independent of the '
+    'number of workers and of the distribution of cases; the runner '
+    'refuses to fork (harness error) from a process in which this driver '
+    'has made a look-up, and the part runs first.  Decided exactly: '
+    'histories of length 2 on one name (all 340 x 3 x 3), first '
+    'look-up of any probe kind that fails, and (thorough) on two '
+    'different names of length <= 2.  The sweeps are longer histories '
+    '(first look-up, then 1020 look-ups in one fixed order per case): a '
+    'wrong outcome anywhere in them is a violation, but a defect that '
+    'an intermediate look-up of the sweep repairs again is only seen '
+    'by the exact pairs.  Histories of three or more look-ups on '
+    'different names in other orders, names longer than 4 or with '
+    'foreign letters (part swizzle, without history), state shared '
+    'through files or other processes are outside the family.',
     'Instances of user subclasses of Vec2/3/4 (class Point(Vec4): pass) '
     'are vectors: Mat @ v and every vector operation must give, for such a '
     'v, a result equal (==, same length) to the result for the plain '
@@ -868,6 +908,7 @@ def run_swizzle(case):
     what = f'{show(cls, vals)}.{s}' if s else f'getattr({show(cls, vals)}, "")'
     valid = 1 <= len(s) <= 4 and all(c in own for c in s)
     hits = []
+    _LOOKUPS_HERE[0] += 1
     try:
         r = getattr(vec, s)
     except AttributeError:
@@ -912,6 +953,242 @@ def run_swizzle(case):
     elif len(s) < n:
         hits.append('swizzle_narrows')
     return info(1, hits, case)
+
+
+# ---------------------------------------------------------------------------
+# part swizzle_history: what a look-up returns must not depend on the
+# look-ups made before it in the same process (name caches, memoised index
+# tuples, remembered failures ...).  Process-wide state cannot be decided by
+# cases that share worker processes in an order the kernel chooses, so every
+# case of this part runs in its OWN freshly forked child: the child makes the
+# first look-up, then the second one(s), judges them against the textbook and
+# sends a small JSON value back through a pipe; it ends with os._exit.  The
+# forking process itself never performs a look-up (guard below), so each child
+# starts from the state "desper imported, no vector attribute ever asked".
+HISTORY_NAMES = [''.join(t) for k in (1, 2, 3, 4)
+                 for t in product('xyzw', repeat=k)]            # 340 names
+HISTORY_SHORT = [t for t in HISTORY_NAMES if len(t) <= 2]       # 20 names
+PROBES = ('attr', 'hasattr', 'default')
+_LOOKUPS_HERE = [0]     # vector attribute look-ups made by THIS process
+
+
+def swizzle_legal(cls, name):
+    return 1 <= len(name) <= 4 and all(c in LETTERS[cls] for c in name)
+
+
+def _probe(cls, name, kind):
+    """One look-up on a fresh vector -> JSON-able observation."""
+    _LOOKUPS_HERE[0] += 1
+    vec = CLS[cls](*SWZ_VALUES[:DIM[cls]])
+    try:
+        if kind == 'hasattr':
+            return ['has', bool(hasattr(vec, name))]
+        if kind == 'default':
+            missing = object()
+            r = getattr(vec, name, missing)
+            if r is missing:
+                return ['missing']
+        elif kind == 'attr':
+            try:
+                r = getattr(vec, name)
+            except AttributeError:
+                return ['missing']
+        else:
+            raise HarnessError(f'unknown probe {kind!r}')
+    except HarnessError:
+        raise
+    except Exception as exc:
+        return ['raised', f'{type(exc).__name__}: {exc}']
+    t = vals_of(r)
+    if t is None:
+        return ['scalar', r if isinstance(r, (int, float)) else repr(r)]
+    return ['vector', type(r).__name__,
+            [x if isinstance(x, (int, float)) else repr(x) for x in t]]
+
+
+def _judge(cls, name, kind, obs):
+    """-> None or (violation kind, text) against the textbook definition."""
+    own = LETTERS[cls]
+    vals = SWZ_VALUES[:DIM[cls]]
+    call_text = {'attr': f'.{name}', 'hasattr': f': hasattr(v, {name!r})',
+                 'default': f': getattr(v, {name!r}, default)'}[kind]
+    what = f'{show(cls, vals)}{call_text}'
+    if obs[0] == 'raised':
+        return 'wrong_exception', f'{what} raised {obs[1]}'
+    if not swizzle_legal(cls, name):
+        if obs == ['missing'] or obs == ['has', False]:
+            return None
+        return 'invalid_accepted', (f'{what} -> {obs[1:]!r}, AttributeError '
+                                    'expected')
+    exp = [vals[own.index(c)] for c in name]
+    if obs == ['missing'] or obs == ['has', False]:
+        return 'valid_rejected', (f'{what} is reported missing, expected '
+                                  f'{exp[0] if len(exp) == 1 else tuple(exp)}')
+    if obs[0] == 'has':
+        return None
+    if len(name) == 1:
+        ok = obs[0] == 'scalar' and obs[1] == exp[0]
+    else:
+        ok = obs[0] == 'vector' and obs[1] == f'Vec{len(name)}' \
+            and obs[2] == exp
+    if not ok:
+        return 'value', f'{what} -> {obs[1:]!r}, expected {tuple(exp)}'
+    return None
+
+
+def _history_child(case):
+    """Runs inside the forked child: -> {'bad': None | [...], 'calls': n}."""
+    kind = case[0]
+    if kind == 'pair':
+        _, p1, c1, n1, c2, n2 = case
+        seq = [(c1, n1, p1)] + [(c2, n2, p) for p in PROBES]
+    elif kind == 'sweep':
+        _, p1, c1, n1, order = case
+        classes = VECS if order == 'ascending' else VECS[::-1]
+        seq = [(c1, n1, p1)] if c1 else []
+        seq += [(c, n, 'attr') for c in classes for n in HISTORY_NAMES]
+    else:
+        raise HarnessError(f'unknown swizzle_history case {case!r}')
+    for pos, (cls, name, probe) in enumerate(seq):
+        bad = _judge(cls, name, probe, _probe(cls, name, probe))
+        if bad:
+            return {'bad': [pos, cls, name, probe, bad[0], bad[1]],
+                    'calls': pos + 1}
+    return {'bad': None, 'calls': len(seq)}
+
+
+def in_own_process(fn, arg):
+    """fn(arg) in a freshly forked child; the JSON-able result comes back
+    through a pipe.  The child never returns into the harness."""
+    import json
+    import os
+    import traceback
+    rfd, wfd = os.pipe()
+    pid = os.fork()
+    if pid == 0:
+        code = 0
+        try:
+            os.close(rfd)
+            try:
+                out = {'ok': fn(arg)}
+            except BaseException:
+                out = {'error': traceback.format_exc()}
+            view = memoryview(json.dumps(out).encode())
+            while view:
+                view = view[os.write(wfd, view):]
+        except BaseException:
+            code = 1
+        finally:
+            os._exit(code)
+    os.close(wfd)
+    chunks = []
+    try:
+        while True:
+            chunk = os.read(rfd, 1 << 16)
+            if not chunk:
+                break
+            chunks.append(chunk)
+    finally:
+        os.close(rfd)
+        _, status = os.waitpid(pid, 0)
+    try:
+        out = json.loads(b''.join(chunks).decode())
+    except ValueError:
+        raise HarnessError(f'child process for {arg!r} ended with status '
+                           f'{status} without a result')
+    if 'error' in out:
+        raise HarnessError(f'child process for {arg!r} failed:\n'
+                           f'{out["error"]}')
+    return out['ok']
+
+
+def _history_pairs(probe, names, only_failing_first=False, same_name=True):
+    cases = []
+    for n1 in names:
+        for c1 in VECS:
+            if only_failing_first and swizzle_legal(c1, n1):
+                continue
+            for c2 in VECS:
+                for n2 in ([n1] if same_name else names):
+                    if same_name or n2 != n1:
+                        cases.append(('pair', probe, c1, n1, c2, n2))
+    return cases
+
+
+def cases_swizzle_history(tier):
+    # exact ordered pairs on the same name: every name x class x class
+    cases = _history_pairs('attr', HISTORY_NAMES)
+    # the first look-up a hasattr / getattr-with-default probe
+    for probe in ('hasattr', 'default'):
+        cases += _history_pairs(probe, HISTORY_NAMES,
+                                only_failing_first=tier != 'thorough')
+    # one first look-up, then the whole alphabet in both class orders
+    for order in ('ascending', 'descending'):
+        cases.append(('sweep', 'attr', '', '', order))
+        for c1 in VECS:
+            for n1 in HISTORY_NAMES:
+                cases.append(('sweep', 'attr', c1, n1, order))
+    if tier == 'thorough':
+        # exact ordered pairs on different names (length 1-2)
+        cases += _history_pairs('attr', HISTORY_SHORT, same_name=False)
+    return cases
+
+
+def run_swizzle_history(case):
+    if _LOOKUPS_HERE[0]:
+        raise HarnessError(
+            'swizzle_history must fork from a process that never looked up '
+            f'a vector attribute; this one made {_LOOKUPS_HERE[0]} look-ups')
+    out = in_own_process(_history_child, case)
+    first_probe, c1, n1 = case[1], case[2], case[3]
+    if not c1:
+        first = 'none'
+    else:
+        first = 'succeeding' if swizzle_legal(c1, n1) else 'failing'
+    if out['bad']:
+        pos, cls, name, probe, kind, text = out['bad']
+        if pos == 0 and c1:
+            raise Violation('swizzle_history', f'first look-up of the '
+                            f'process: {text}', cls=cls, op='swizzle',
+                            kind=kind, first='none')
+        before = {'none': 'nothing',
+                  'failing': f'the failing look-up {n1!r} on a {c1}',
+                  'succeeding': f'the look-up {n1!r} on a {c1}'}[first]
+        between = pos - (1 if c1 else 0)
+        if between:
+            # not the look-up right after the first one: the signature says
+            # so (which of the earlier look-ups matters is not known here)
+            raise Violation('swizzle_history', f'{text}  [in a new process, '
+                            f'after {before} and {between} more look-ups of '
+                            'this case]', cls=cls, op='swizzle', kind=kind,
+                            first='longer_history')
+        raise Violation('swizzle_history', f'{text}  [in a new process, '
+                        f'after {before}]', cls=cls, op='swizzle',
+                        kind=kind, first=first)
+    hits = ['own_process_per_case', f'first_probe_{first_probe}']
+    if case[0] == 'sweep':
+        hits.append(f'sweep_after_{first}_first')
+        hits.append(f'sweep_classes_{case[4]}')
+        return info(out['calls'], hits, case)
+    c2, n2 = case[4], case[5]
+    second = swizzle_legal(c2, n2)
+    if first == 'failing' and second:
+        if n1 == n2 and DIM[c2] > DIM[c1]:
+            hits.append('failing_lookup_first_then_legal_on_bigger_vector')
+        else:
+            hits.append('failing_lookup_first_then_legal_other_name')
+    elif first == 'failing':
+        hits.append('failing_lookup_first_then_failing')
+    elif second:
+        hits.append('legal_lookup_first_then_legal')
+        if c1 == c2 and n1 == n2:
+            hits.append('same_lookup_repeated')
+    else:
+        hits.append('legal_lookup_first_then_failing_on_smaller_vector'
+                    if n1 == n2 else 'legal_lookup_first_then_failing')
+    if n1 != n2:
+        hits.append('history_pair_of_different_names')
+    return info(out['calls'], hits, case)
 
 
 # ---------------------------------------------------------------------------
@@ -1852,6 +2129,7 @@ def _sub_apply(op, arg, vs):
     if op in ('mag', 'heading'):
         return getattr(a, op)
     if op == 'swizzle':
+        _LOOKUPS_HERE[0] += 1
         return getattr(a, arg[0])
     if op == 'normalize':
         return a.normalize()
@@ -2210,6 +2488,9 @@ def run_vec_zero_length(case):
 
 # ---------------------------------------------------------------------------
 PARTS = {
+    # first: with one worker the runners are called in the parent itself,
+    # which must not have looked up a vector attribute before it forks
+    'swizzle_history': (cases_swizzle_history, run_swizzle_history),
     'vec_arith': (cases_vec_arith, run_vec_arith),
     'vec_cross': (cases_vec_cross, run_vec_cross),
     'vec_lerp': (cases_vec_lerp, run_vec_lerp),
@@ -2254,6 +2535,15 @@ def run(tier, rep):
         default_is_identity=1, transpose_moves_entry=1,
         ortho_box_corners_to_unit_cube=1, exact_fraction_division=1,
         lerp_alpha1_is_other=1, cross_nonzero=1,
+        own_process_per_case=1,
+        failing_lookup_first_then_legal_on_bigger_vector=1,
+        failing_lookup_first_then_failing=1,
+        legal_lookup_first_then_legal=1, same_lookup_repeated=1,
+        legal_lookup_first_then_failing_on_smaller_vector=1,
+        first_probe_attr=1, first_probe_hasattr=1, first_probe_default=1,
+        sweep_after_failing_first=1, sweep_after_succeeding_first=1,
+        sweep_after_none_first=1, sweep_classes_ascending=1,
+        sweep_classes_descending=1,
         lerp_inside=1, lerp_extrapolates_below=1, lerp_extrapolates_above=1,
         lerp_extrapolation_differs_from_end_points=1,
         zero_length_normalize=1, zero_length_abs=1,
